@@ -287,6 +287,7 @@ func init() {
 	registerMisc()
 	registerProto()
 	registerCalendar()
+	registerFS()
 }
 
 // ---------- time ----------
